@@ -85,7 +85,8 @@ theorem spanOk_sub {sp : Span} (h : SpanOk txt sp) (i j : Nat) (hij : i ≤ j) (
 
 /-- `consume_qname`: a step of the cursor; prefix and local name are slices of the input. -/
 theorem consumeQName_spec {s : Stream} (hs : SOk txt s) :
-    RSpec (s.consumeQName T txt) (fun p => Step txt s p.1 ∧ SpanOk txt p.2.1 ∧ SpanOk txt p.2.2) := by
+    RSpec (s.consumeQName T txt) (fun p => Step txt s p.1 ∧ SpanOk txt p.2.1 ∧ SpanOk txt p.2.2 ∧
+      p.2.2.bytes ≠ []) := by
   unfold Stream.consumeQName
   apply rspec_bind _ _ _ _ (qnameLoop_spec T txt s.pos _ s [] none (by omega) hs)
   rintro ⟨s', all, split⟩ ⟨run, ht, hso, he, hsp⟩
@@ -112,7 +113,12 @@ theorem consumeQName_spec {s : Stream} (hs : SOk txt s) :
     · exact errFrom_safe _ _ _ _
     · split
       · exact errFrom_safe _ _ _ _
-      · exact rspec_ok _ _ ⟨⟨ht.adv, hso⟩, hp, hl⟩
+      · rename_i hns
+        refine rspec_ok _ _ ⟨⟨ht.adv, hso⟩, hp, hl, ?_⟩
+        intro h0
+        simp only at h0
+        rw [h0] at hns
+        simp [Stream.strIsNameStart] at hns
   · have hp : SpanOk txt ⟨s.pos, []⟩ := by
       have := spanOk_sub txt hall 0 0 (Nat.le_refl _) (by simp)
       simpa using this
@@ -120,7 +126,12 @@ theorem consumeQName_spec {s : Stream} (hs : SOk txt s) :
     · exact errFrom_safe _ _ _ _
     · split
       · exact errFrom_safe _ _ _ _
-      · exact rspec_ok _ _ ⟨⟨ht.adv, hso⟩, hp, hall⟩
+      · rename_i hns
+        refine rspec_ok _ _ ⟨⟨ht.adv, hso⟩, hp, hall, ?_⟩
+        intro h0
+        simp only at h0
+        rw [h0] at hns
+        simp [Stream.strIsNameStart] at hns
 
 theorem finishRef_step {s0 s : Stream} (h : Step txt s0 s) (r : Reference) :
     (s.finishRef r).2.isSome → Step txt s0 (s.finishRef r).1 := by
